@@ -34,7 +34,14 @@ TFootprint == /\ Ev("lc.footprint") /\ UNCHANGED live
               /\ IF base = <<>> THEN base' = [g |-> E.goroutines, f |-> E.fds] /\ UNCHANGED bad
                  ELSE /\ UNCHANGED base
                       /\ Flag(E.goroutines <= base.g + 12 /\ E.fds <= base.f + 8, "goroutine / descriptor footprint grows with repeated cycles")
-TNext == TReset \/ TRegister \/ TTerminate \/ TSnapshot \/ TFootprint
+\* an http proxy was closed by a client reload while idle (wrapped) backend connections of it sat in frps' pool:
+\* they are resources of the proxy and have to be released with it
+TRelease == /\ Ev("lc.release") /\ UNCHANGED <<live, base>>
+            /\ bad' = bad
+               \cup (IF E.idle_before >= 1 THEN {} ELSE {<<"the scenario left no idle backend connection to release", l>>})
+               \cup (IF E.released /\ E.idle_after = 0 THEN {} ELSE {<<"idle backend connections (wrapped work connections) of a closed proxy were not released", l>>})
+TNote == Ev("lc.note") /\ UNCHANGED <<live, base>> /\ bad' = bad \cup {<<"scenario could not run", l>>}
+TNext == TReset \/ TRegister \/ TTerminate \/ TSnapshot \/ TFootprint \/ TRelease \/ TNote
 TSpec == TInit /\ [][TNext]_<<l, bad, live, base>>
 NoMismatch == bad = {}
 HWM == TLCSet(1, IF TLCGet(1) < l THEN l ELSE TLCGet(1))
